@@ -60,7 +60,10 @@ namespace wq
         for (int k = 0; k < P.rounds && !g_failed.load(std::memory_order_relaxed); k++)
         {
             int q = (int)r.below(P.nq);
-            int prio = (int)r.below(100) < P.prio_pct ? WAIT_PRIORITY : 0;
+            // the parameter is an int tested for truth: every non-zero value asks for the front of the queue, not only
+            // the named constant (seeded C20-r5s2 tested `priority & WAIT_PRIORITY`: even values parked at the back)
+            static const int prio_values[] = {WAIT_PRIORITY, WAIT_PRIORITY, 2, 3, 4, -1, -2, 0x100, INT_MIN, INT_MAX};
+            int prio = (int)r.below(100) < P.prio_pct ? prio_values[r.below(sizeof prio_values / sizeof prio_values[0])] : 0;
             perturb(t, S_HARNESS);
             t->cur_q = q;
             t->cur_op = (uint32_t)k;
